@@ -158,6 +158,15 @@ func vrtHarness_C07_close() {
 		_, err := t.ExchangeContext(context.Background(), vrtWire(1, 100))
 		done <- err
 	}()
+	if dialMode == 0 && vrtChoice(2) == 1 {
+		// the peer closes its side at an arbitrary moment: the connection's own failure handling may run
+		// at the same time as Close
+		go func() {
+			vrtDaemon()
+			vrtAwait(func() bool { return len(conns) > 0 }, func() { conns[0].eof = true })
+			vrtCover("peer closed while the transport was being closed", true)
+		}()
+	}
 	if vrtChoice(2) == 1 {
 		vrtWaitQuiescent() // the call is waiting for its reply ...
 	} // ... or Close races with the call at any earlier point
